@@ -363,3 +363,56 @@ PROPS["C04"] = dict(
                "encode_date/encode_time/encode_datetime/write!(str) element encoders: their returned counts are assumed "
                "(Kani harnesses over them exceed 600 s in format machinery)"],
 )
+
+# ----------------------------------------------------------------------- C01
+_C01 = ["c01::c01_%s_%s" % (t, e) for t in ["us", "ss", "ul", "sl", "uv", "sv", "fl", "fd"] for e in ["le", "be"]]
+PROPS["C01"] = dict(
+    level="proof",
+    units=[
+        K("C01.scalar_codecs", "ext", _C01,
+          "LittleEndian/BigEndian BasicEncoder::encode_{us,ss,ul,sl,uv,sv,fl,fd} followed by the matching BasicDecoder::decode_* "
+          "is the identity for every value (floats by bits), writes and consumes exactly 2/4/8 bytes, byte order per endianness",
+          fns=[("encoding/src/encode/basic.rs", "encode_us", r"impl\s+BasicEncode\s+for\s+LittleEndianBasicEncoder"),
+               ("encoding/src/encode/basic.rs", "encode_us", r"impl\s+BasicEncode\s+for\s+BigEndianBasicEncoder"),
+               ("encoding/src/decode/basic.rs", "decode_us", r"impl\s+BasicDecode\s+for\s+LittleEndianBasicDecoder"),
+               ("encoding/src/decode/basic.rs", "decode_us", r"impl\s+BasicDecode\s+for\s+BigEndianBasicDecoder")]),
+        K("C01.header_roundtrip", "ext", ["c03::c03_roundtrip_explicit_le", "c03::c03_roundtrip_explicit_be"],
+          "element header write-then-read is the identity in the explicit codecs (shared with C03; implicit: C03.dec_header against the dictionary contract)"),
+        K("C01.multi_value_decoders", "ext", ["c01::c01_us_into_be_n3", "c01::c01_ul_into_le_n2"],
+          "decode_us_into / decode_ul_into fill every slot from consecutive values in order",
+          complete=False, bound="3 resp. 2 values (concrete lengths), bytes symbolic"),
+    ],
+    assumptions=["only the value-codec and header layer of the property is decided; element-level composition relies on the contracts of C04 (writer) and C07 (reader), which are not machine-composed here"],
+    uncovered=["whole data sets: token streams, nested sequences, encapsulated pixel data, deflate (DataSetWriter/DataSetReader, InMemDicomObject)",
+               "text values (character-set codecs, C10)", "element-level write-then-read of values as one machine-checked statement"],
+)
+
+# ----------------------------------------------------------------------- C12
+_PARTIAL = "core/src/value/partial.rs"
+PROPS["C12"] = dict(
+    level="proof",
+    units=[
+        K("C12.constructors", "ext", ["c12::c12_date_constructors", "c12::c12_time_constructors", "c12::c12_time_fraction_constructors"],
+          "DicomDate::{from_y,from_ym,from_ymd}, DicomTime::{from_h,from_hm,from_hms,from_hms_milli,from_hms_micro}: Ok <=> every "
+          "component is in its range (year <= 9999, month 1-12, day 1-31, hour < 24, minute < 60, second <= 60, fraction within its "
+          "precision), and the components are stored — for all inputs",
+          fns=[(_PARTIAL, "check_component"), (_PARTIAL, "from_ymd", r"impl\s+DicomDate"), (_PARTIAL, "from_hms", r"impl\s+DicomTime"),
+               (_PARTIAL, "from_hms_milli", r"impl\s+DicomTime"), (_PARTIAL, "from_hms_micro", r"impl\s+DicomTime")]),
+        V("C12.parse_partial", "c12_parse_partial.vrs",
+          "parse_date_partial / parse_time_partial on ANY bytes: no panic (slice bounds, accumulator widths), rest is a suffix; the "
+          "text YYYY / YYYYMM / YYYYMMDD / HH / HHMM / HHMMSS / HHMMSS.F{1..6} of every valid value parses back to exactly that value "
+          "with that precision, consuming the whole text",
+          expected_verified=11),
+        K("C12.parse_kani_crosscheck", "ext", ["c12::c12_parse_date_y", "c12::c12_parse_time_h"],
+          "cross-check on the compiled code, including the real read_number: YYYY and HH texts (all digit strings)",
+          timeout=600, tier="thorough"),
+    ],
+    assumptions=[
+        "read_number is an abstract callee in the Verus unit (decimal value of 1..=9 ASCII digits); its real body is exercised only by the Kani cross-check for 2- and 4-digit texts",
+        "the constructor contracts used by the Verus unit are those proved by C12.constructors (from_hmsf, pub(crate), is assumed: valid components and fraction < 10^precision => Ok with those fields)",
+        "buf.iter().position(..), usize::min, u8::try_from(n).unwrap() replaced by shims with the same meaning",
+    ],
+    uncovered=["to_encoded (format!): text produced from a value — Kani exceeds its budget in the fmt machinery",
+               "date-time values, time-zone offsets (chrono FixedOffset)", "AsRange earliest/latest (chrono NaiveDate/NaiveTime arithmetic)",
+               "range texts A-B, A-, -B (parse_date_range / parse_time_range)", "encoded text length == reported length"],
+)
